@@ -118,7 +118,7 @@ def run(chk, replay=None):
         raise vf.MachineryError("python reference does not reproduce the XEP-0115 5.2 example")
     # 1. design level.  The generator configurations carry the invariants and action properties too, so one TLC run
     #    per bounded model both checks it exhaustively and exports its transitions.
-    tours = ["Feats"] if replay else ["Mix", "IdsQ" if quick else "Ids", "Feats", "Form"] + ([] if quick else ["Big", "Form3", "Feats5"])
+    tours = ["Feats"] if replay else ["Mix", "IdsQ" if quick else "Ids", "Feats", "Form"] + ([] if quick else ["Feats5"])
     jobs = [lambda: vf.tlc_mc("CapsInj.tla", "CapsInj.cfg", workers=1)]
     for t in tours:
         jobs.append(lambda t=t: vf.tlc_gen("CapsGen.tla", f"CapsGen{t}.cfg", keep_prefixes=True, timeout=2400))
@@ -128,6 +128,10 @@ def run(chk, replay=None):
                                             num=40 if quick else 400, depth=40, seed=chk.seed, workers=1))
     res = tracepar.par(jobs)
     chk.mc(res[0], "CapsInj.cfg")
+    if not quick and not replay:
+        # the product model and a larger form model: model checking only (their transition lists are too large to export)
+        for cfg in ("CapsBig.cfg", "CapsForm3.cfg"):
+            chk.mc(vf.tlc_mc("Caps.tla", cfg, workers=W, timeout=2400), cfg)
     behs = []
     gen_stats = {}
     states_visited = 0
@@ -136,7 +140,7 @@ def run(chk, replay=None):
         chk.mc({"ok": True, "distinct": st["distinct"], "states": st["states"], "depth": 0, "wall_s": st["wall_s"]}, cfg)
         if replay:
             break
-        big = t in ("Big", "Form3", "Feats5")
+        big = t == "Feats5"
         tree, near, emits, others, nstates = _select(tour, rnd, n_emit=60 if quick else 1000, n_trans=60 if quick else 2000)
         if big:   # the product models are for TLC; replay a seeded sample of their state-covering behaviours
             rnd.shuffle(tree)
@@ -224,6 +228,8 @@ def run(chk, replay=None):
     chk.cov["traces_validated_against_impl"] = s["cases"]
     chk.cov["trace_lines"] = s["lines"]
     chk.cov["edit_steps_hashed"] = nedit
+    chk.cov["distinct_hashes_observed"] = len({ln["o"]["ver"] for ex_ in out for ln in ex_ if "ver" in ln["o"]}
+                                              | {ln["o"]["adv"] for ex_ in out for ln in ex_ if "adv" in ln["o"]})
     chk.cov["presence_emissions_checked"] = nemit
     chk.cov["diverged_executions"] = s["ndiv"]
     chk.cov["first_divergences"] = s["divs"][:3]
